@@ -137,8 +137,10 @@ class Constant(Leaf):
         _ = lean
         literal = str(self.literal)
         if '\n' in literal:
-            # NOTE the multi-line form; evaluation trims the common indentation
-            return f'```{trim(literal)}```'
+            # NOTE the multi-line form; evaluation trims the common indentation:
+            #   the text starts on a line of its own, so that indenting the
+            #   rule keeps the relative indentation of its lines
+            return f'```\n{trim(literal)}```'
         return f'`{literal}`'
 
     @cached_property
